@@ -5,6 +5,12 @@ VERIF = os.path.dirname(os.path.dirname(os.path.abspath(__file__)))
 
 TECH = "Coq proof over a Gallina model + differential correspondence (extracted model vs implementation)"
 CHECKS = {
+ "C01": dict(
+   text="Theorems (Props/C01.v): for ANY valid schedule (each action reads only wires already holding this cycle's value, each wire written once, state changes last) every written wire ends the cycle holding exactly the value its definition yields from the end-of-cycle wire values and the start-of-cycle registers/memory; known wires keep their values; state changes are the write ports applied to the start-of-cycle state with the final values; two valid schedules of the same actions give the same values and state; evaluation reads only the wires an expression mentions. (The first-draft statement without 'known wires hold values' is refuted in Coq.) Tie: every schedule the implementation produces (4, thorough 12, compilations per program under fresh hash seeds, fetched through the hook) validated by the extracted valid_schedule; compiled program equal to the model's build_program up to action order; per-cycle values/registers/memory equal to the model.",
+   note="that Program::new always produces a valid schedule is proved in BuildProofs.v when available and tied by validating every observed schedule; HashMap semantics trusted.", ref="4 C01"),
+ "C15": dict(
+   text="Theorems (Props/C15.v): a well-formed data line loads exactly its bytes at consecutive addresses; comment-only and pipe-free lines contribute nothing; every other line is refused (complete characterisation of accepted lines); a file is refused iff empty or containing a refused line, else it is the effect of its lines in order; put_bytes/mem_get law. Tie: valid listings judged against the generator's own byte map, malformed lines (every truncation, column replaced/inserted by blank g + | : e-acute NUL heart), corner files, all vs the model.",
+   note="BufRead::lines modelled by split_lines (LF / CRLF); invalid UTF-8 (an io::Error in Rust) is outside the model and exercised through the binary in C19/C13.", ref="4 C15"),
  "C02": dict(
    text="Theorems (Props/C02.v): for every accepted expression and every environment agreeing with the declarations, eval yields exactly the denotation ExprSpec.den (plain arithmetic mod 2^width on unbounded numbers; unsigned comparisons; shifts >= 128 give 0; ~ and - within the operand width; slices; concat order; in-set by value; mux = first non-zero arm reduced to the shared width) at the checker's width, in which it fits; assignment truncates. Tie: operator x width x boundary-value grid, mux/unsized combinations and random nestings through the hook check_and_eval vs the extracted model, in the overflow-checking and the wrapping build.",
    note="Model of ast.rs hand-written (Expr.v); spans and message wording not modelled; tie by differential correspondence; Rust u128/u8 arithmetic modelled on N with explicit wrap.", ref="4 C02"),
